@@ -133,7 +133,9 @@ class SliceRef:
     """fat pointer &[T] / &str / &mut [T]: window [start, start+len) of a list-like container"""
     __slots__ = ("base", "start", "len", "is_str")
 
-    def __init__(self, base: Ref, start: int, length: int, is_str=False):
+    def __init__(self, base, start: int, length: int, is_str=False):
+        if not isinstance(base, Ref):
+            base = Ref(Cell(base, "tmp"), ())
         self.base, self.start, self.len, self.is_str = base, start, length, is_str
 
     def items(self):
